@@ -59,7 +59,13 @@ Definition SI (ih : N) (ivs : valset) (st : stores) : Prop :=
 
 (** * Extra facts about a kernel state that the crash analysis carries along *)
 Definition comvals (ih : N) (ivs : valset) (s : kstate) : Prop :=
-  k_chdr s <> None -> v_vals (k_com s) = chain_vals ih ivs (st_hdrs s) (v_h (k_com s)).
+  match k_chdr s with
+  | None => vs_keys (v_vals (k_com s)) = []
+  | Some _ => v_vals (k_com s) = chain_vals ih ivs (st_hdrs s) (v_h (k_com s))
+  end.
+(** every proposed header of the voting / next-round view announces a next set with keys *)
+Definition kok (s : kstate) : Prop :=
+  forall p, In p (v_phs (k_vot s)) \/ In p (v_phs (k_nxt s)) -> vs_keys (hd_next (ph_hdr p)) <> [].
 Definition ne_view (v : view) : Prop := ne_pmap (v_pv v) /\ ne_pmap (v_pc v).
 Definition ne_state (s : kstate) : Prop := ne_view (k_com s) /\ ne_view (k_vot s) /\ ne_view (k_nxt s).
 Definition n1_view (rs : list (N * N * rentry)) (v : view) : Prop :=
@@ -67,8 +73,9 @@ Definition n1_view (rs : list (N * N * rentry)) (v : view) : Prop :=
 Definition n1 (s : kstate) : Prop := n1_view (st_rounds s) (k_vot s) /\ n1_view (st_rounds s) (k_nxt s).
 
 (** everything: the existing invariants, the extras, and the store invariant of the state's stores *)
-Definition J (ih : N) (ivs : valset) (s : kstate) : Prop :=
-  INV ih ivs s /\ tinv s /\ comvals ih ivs s /\ ne_state s /\ n1 s /\ SI ih ivs (stores_of s).
+Definition X (ih : N) (ivs : valset) (s : kstate) : Prop :=
+  comvals ih ivs s /\ ne_state s /\ n1 s /\ kok s /\ SI ih ivs (stores_of s).
+Definition J (ih : N) (ivs : valset) (s : kstate) : Prop := INV ih ivs s /\ tinv s /\ X ih ivs s.
 
 (** * The header chain as a lookup table *)
 Lemma hchain_lookup ih top l : hchain ih top l ->
@@ -203,14 +210,14 @@ Lemma loaded_state_ok com chdr vot0 nxt0 cpv :
   v_h com = ch -> v_r com = cr -> auth_view com -> ne_view com ->
   vsv = match chdr with None => ivs | Some x => hd_next x end ->
   match chdr with
-  | None => ch = 0 /\ cr = 0 /\ sr_hdrs st = [] /\ vh = ih
+  | None => ch = 0 /\ cr = 0 /\ sr_hdrs st = [] /\ vh = ih /\ vs_keys (v_vals com) = []
   | Some x => (exists cp, hdr_get (sr_hdrs st) ch = Some (x, cp)) /\
               hd_height x = ch /\ vh = ch + 1 /\ vh < two64 /\ hchain ih ch (sr_hdrs st) /\
               v_vals com = chain_vals ih ivs (sr_hdrs st) ch
   end ->
   let s0 := mk_k ih ivs com (dressed vot0 cpv) (dressed nxt0 cpv) chdr (sr_nhr st) (sr_hdrs st) (sr_rounds st)
                  (sr_replayed st) vals log evs in
-  INV ih ivs s0 /\ tinv s0 /\ comvals ih ivs s0 /\ ne_state s0 /\ n1 s0.
+  INV ih ivs s0 /\ tinv s0 /\ comvals ih ivs s0 /\ ne_state s0 /\ n1 s0 /\ kok s0.
 Proof.
   intros Lv Ln Hvs Hch Hcr Hca Hcne Hexp Hshape s0. subst s0.
   destruct (load_facts _ _ _ _ _ _ Lv) as (V1&V2&V3&V4&V5&V6&V7&V8).
@@ -237,14 +244,14 @@ Proof.
       destruct chdr as [x|] eqn:Ec.
       + destruct (Hchdr_get x eq_refl) as (cp&Hg&Hv). exists x. split; [reflexivity|].
         replace (vh - 1) with ch in Hy by lia. rewrite Hg in Hy. inversion Hy; subst. exact Hprev.
-      + destruct Hshape as (_&_&_&E). contradiction.
+      + destruct Hshape as (_&_&_&E&_). contradiction.
     - unfold chain_ok. proj. destruct chdr as [x|].
       + destruct Hshape as ((cp&Hg)&Hx&Hv&Hb&Hchain&_). rewrite V1, Hch, Hx.
         split; [reflexivity|]. split; [exact Hv|]. split; [lia|]. split; [|exact Hchain].
         destruct (hchain_top _ _ _ Hchain) as (x0&cp0&rest&El).
         rewrite El in Hg. unfold hdr_get in Hg. cbn [find fst] in Hg. rewrite N.eqb_refl in Hg.
         inversion Hg; subst x0 cp0. exists cp, rest. exact El.
-      + destruct Hshape as (A&B&C&D). rewrite V1, Hch, Hcr. repeat split; assumption. }
+      + destruct Hshape as (A&B&C&D&_). rewrite V1, Hch, Hcr. repeat split; assumption. }
   assert (Hauth : auth_state (mk_k ih ivs com (dressed vot0 cpv) (dressed nxt0 cpv) chdr (sr_nhr st) (sr_hdrs st)
                                     (sr_rounds st) (sr_replayed st) vals log evs)).
   { unfold auth_state. cbn [k_com k_vot k_nxt]. unfold dressed.
@@ -262,13 +269,17 @@ Proof.
     - unfold pok. proj. intros p Hp.
       destruct (Hgoodp p Hp) as (_&_&_&(F4&F5&F6&F7)&_). split; assumption. }
   split.
-  { unfold comvals. proj. intros Hne. destruct chdr as [x|]; [|contradiction].
-    destruct Hshape as (_&_&_&_&_&E). rewrite Hch. exact E. }
+  { unfold comvals. proj. destruct chdr as [x|].
+    - destruct Hshape as (_&_&_&_&_&E). rewrite Hch. exact E.
+    - destruct Hshape as (_&_&_&_&E). exact E. }
   split.
   { unfold ne_state. cbn [k_com k_vot k_nxt]. split; [exact Hcne|]. split; [exact V7|exact N7]. }
-  unfold n1, n1_view. proj. rewrite V1, V2, N1, N2. split; intros Hne.
-  - eapply to_full_map_nonempty_stored; [exact V8|exact Hne].
-  - eapply to_full_map_nonempty_stored; [exact N8|exact Hne].
+  split.
+  { unfold n1, n1_view. proj. rewrite V1, V2, N1, N2. split; intros Hne.
+    - eapply to_full_map_nonempty_stored; [exact V8|exact Hne].
+    - eapply to_full_map_nonempty_stored; [exact N8|exact Hne]. }
+  unfold kok. proj. intros p Hp.
+  destruct (Hgoodp p Hp) as (_&_&_&(_&_&_&F7)&_). exact F7.
 Qed.
 
 End Loaded.
